@@ -17,7 +17,7 @@ RULE = ('Reachable removal-enabled states of both classes (histories of 1-12 cal
         'non-trivial = the window cuts a run strictly inside and misses another run entirely.')
 ASSUMPTIONS = ['e > t in the generated histories']
 TECHNIQUE = 'model-based PBT with metamorphic relation (slice of slice == slice of intersection) and invariant checks on the result'
-BUDGET = {'quick': {'cases': 8000, 'seconds': 45}, 'thorough': {'cases': 120000, 'seconds': 540}}
+BUDGET = {'quick': {'cases': 8000, 'seconds': 45}, 'thorough': {'cases': 300000, 'seconds': 540}}
 
 WIN = st.lists(st.tuples(st.integers(0, 63), st.integers(0, 63), st.sampled_from(['range', 'range', 'range', 'single', 'inverted'])),
                min_size=3, max_size=3)
